@@ -8,8 +8,8 @@ import props, manifest_text as T
 ids = [json.loads(l)["id"] for l in open(os.path.join(ROOT, "properties.jsonl"))]
 checks, na = [], []
 for pid in ids:
-    if pid in props.PROPS and pid in T.CHECKS:
-        c = T.CHECKS[pid]
+    if pid in props.PROPS:
+        c = props.CHECKS[pid]
         checks.append({
             "property_id": pid,
             "quick_cmd": f"tools/vcheck {pid} --tier quick",
